@@ -21,7 +21,9 @@ RULE = ('Cases = 2-3 (hit table, per-call parameter dict) pairs drawn so that da
         '1-40 Hypothesis-drawn global step numbers the baton passes to a drawn other thread (replayable: case + switch '
         'vector); plus, systematically, pre-emption bound 1: for a drawn pair of chunks that both engage the mixture '
         'model, thread A is pre-empted exactly once at the first execution of each distinct ampycloud source line of its '
-        'run (several hundred), B runs to completion, A resumes - both role assignments. (c) supplementary: free-running threads with sys.setswitchinterval(1e-6). Oracle: every chunk\'s snapshot '
+        'run (several hundred), B runs to completion, A resumes - both role assignments; and rendezvous schedules (two '
+        'pre-emptions): A runs to its first execution of line L, B runs to its first execution of the same L, A '
+        'finishes, B finishes - for every distinct line L, with B stopped at its 1st and 2nd (thorough: also 3rd) execution of L; the ambient global NumPy random state is re-seeded per schedule from the case digest. (c) supplementary: free-running threads with sys.setswitchinterval(1e-6). Oracle: every chunk\'s snapshot '
         '(tables, chunk.data with ids, messages, flag, prms) equals its isolated sequential reference, bit-exact, and the '
         'global parameter dict is unchanged. Non-trivial = at least one hand-over happens while two chunks are in flight '
         '(stage interleavings: not a plain concatenation; schedules: >= 1 executed switch). Distinct by (case digest, '
@@ -30,12 +32,13 @@ ASSUMPTIONS = ['pre-emption is modelled at ampycloud source-line granularity; ra
                'parallelism (free-threaded builds) are out of reach',
                'crashes of the isolated reference runs are left to C08 (case skipped)']
 BUDGET = {'quick': 0, 'thorough': 0}
-N_PAIRS = {'quick': 8, 'thorough': 96}
-N_TRIPLES = {'quick': 8, 'thorough': 48}
+N_PAIRS = {'quick': 6, 'thorough': 96}
+N_TRIPLES = {'quick': 6, 'thorough': 48}
 TRIPLE_SAMPLES = {'quick': 40, 'thorough': 1680}
 N_SCHED = {'quick': 128, 'thorough': 4000}
 N_FREE = {'quick': 16, 'thorough': 320}
-N_PB1 = {'quick': 2, 'thorough': 12}
+N_PB1 = {'quick': 1, 'thorough': 12}
+N_RV = {'quick': 1, 'thorough': 12}
 STEPS4 = ['S', 'G', 'L', 'Q']
 _REF_CACHE = {}
 
@@ -92,10 +95,27 @@ def gmm_sensitive_chunk(draw):
     return {'rows': rows, 'prms': prms}
 
 
+def rng_sensitive_corpus():
+    import glob
+    import json
+    import os
+    out = []
+    for pth in sorted(glob.glob(os.path.join(runner.VERIF, 'corpus', 'rng_sensitive', '*.json'))):
+        with open(pth, encoding='utf-8') as fil:
+            c = json.load(fil)['case']
+        out.append({'rows': c['rows'], 'prms': c['prms']})
+    return out
+
+
 @st.composite
 def gmm_pair(draw):
-    """ Two chunks that both engage the mixture model, with different data and parameters. """
-    return [draw(gmm_sensitive_chunk()), draw(gmm_sensitive_chunk())]
+    """ Two chunks that both engage the mixture model, with different data and parameters; the second one is
+    taken from the committed corpus of scenes whose layering depends on the mixture model's random seed
+    (tools/find_rng_sensitive.py), so that leaked random state would show. """
+    corpus = rng_sensitive_corpus()
+    first = draw(gmm_sensitive_chunk())
+    second = corpus[draw(st.integers(0, len(corpus) - 1))] if corpus else draw(gmm_sensitive_chunk())
+    return [first, second]
 
 
 def chunk_snapshot(chunk, msg):
@@ -180,6 +200,11 @@ def check(case):
         return res
     kind = case['kind']
     res.labels = [kind, f'{len(specs)}-chunks']
+    # the ambient global NumPy random state is part of the environment: vary it with the case, so that code
+    # leaking or borrowing global random state sees a different one in every schedule
+    import numpy as _np
+    _np.random.seed(int(runner.digest([case.get('order'), case.get('switches'), case.get('abs_switches'),
+                                       case.get('loc_plan'), key]), 16) % (2 ** 32))
     if kind == 'interleave':
         try:
             snaps = run_interleaving(specs, case['order'], case.get('with_msg', True))
@@ -194,12 +219,15 @@ def check(case):
         res.sample = {'kind': kind, 'n_rows': [len(s['rows']) for s in specs], 'prms': [s['prms'] for s in specs],
                       'order': case['order']}
     elif kind == 'sched':
-        if 'abs_switches' in case:
+        loc_plan = case.get('loc_plan') or ()
+        if loc_plan:
+            switches = []
+        elif 'abs_switches' in case:
             switches = [tuple(x) for x in case['abs_switches']]
         else:
             total = count_steps(specs)
             switches = sorted((max(1, int(frac * total / 10000)), tgt) for frac, tgt in case['switches'])
-        sc = sched.Scheduler(switches)
+        sc = sched.Scheduler(switches, loc_plan=loc_plan)
         snaps = sc.run([lambda s=s: reference(s) for s in specs])
         if sc.errors:
             i, exc = sorted(sc.errors.items())[0]
@@ -279,10 +307,15 @@ def jobs(tier, seed):
         out.append({'name': f'triples-{i}', 'what': 'triples', 'seed': runner.derive_seed(seed, ID, 'triples', i),
                     'part': i, 'parts': N_TRIPLES[tier]})
     for pair in range(N_PB1[tier]):
-        for role in (0, 1):
+        for role in ((0,) if tier == 'quick' else (0, 1)):
             for part in range(4):
                 out.append({'name': f'pb1-{pair}-{role}-{part}', 'what': 'pb1', 'role': role, 'part': part, 'parts': 4,
                             'seed': runner.derive_seed(seed, ID, 'pb1', pair)})
+    for pair in range(N_RV[tier]):
+        for part in range(4):
+            out.append({'name': f'rv-{pair}-{part}', 'what': 'rv', 'part': part, 'parts': 4,
+                        'occs': [1, 2] if tier == 'quick' else [1, 2, 3],
+                        'seed': runner.derive_seed(seed, ID, 'pb1', pair)})
     nsh = 16
     for i in range(nsh):
         out.append({'name': f'sched-{i}', 'what': 'sched', 'seed': runner.derive_seed(seed, ID, 'sched', i),
@@ -334,6 +367,25 @@ def run_job(job, ctx):
             ctx.stats.exhaustive.append(f'one pre-emption of thread A at the first execution of each of the {len(steps)} '
                                         'distinct ampycloud source lines of its run (B runs to completion, A resumes), '
                                         'for each drawn mixture-model pair and both role assignments')
+    elif what == 'rv':
+        # rendezvous: A runs up to its first execution of source line L, then B runs up to *its* first execution
+        # of the same line, then A finishes, then B finishes - for every distinct line L of A's run
+        specs = draw_examples(gmm_pair(), 4, job['seed'])[-1]
+        rec = sched.Scheduler(())
+        rec.run([lambda: reference(specs[0])])
+        locs = sorted(((f.split('/ampycloud/')[-1], fn, ln) for (f, fn, ln) in rec.first_seen),
+                      key=lambda l: rec.first_seen[next(k for k in rec.first_seen
+                                                        if (k[0].split('/ampycloud/')[-1], k[1], k[2]) == l)])
+        for loc in locs[job['part']::job['parts']]:
+            for occ in job['occs']:
+                case = {'kind': 'sched', 'chunks': specs, 'loc_plan': [[0, list(loc), 1, 1], [1, list(loc), 0, occ]]}
+                res = check(case)
+                if occ > 1 and res.sample and len(res.sample.get('executed_switches', [])) < 2:
+                    res.nontrivial = False      # B never reached that occurrence: same as plain pre-emption
+                ctx.record(case, res)
+        if job['part'] == 0:
+            ctx.stats.exhaustive.append(f'rendezvous schedules: both threads stopped at the same source line, for each of '
+                                        f'the {len(locs)} distinct ampycloud lines of thread A\'s run, for each drawn pair')
     elif what == 'pairs':
         specs = [s for s in draw_examples(chunks_strategy(n=(2, 2)), 3, job['seed'])][-1]
         n = 0
